@@ -40,7 +40,9 @@ def sun_case(args):
     import eascheduler.producers.prod_sun as ps
     from astral import sun
     from vclock import instant_of_ns, ns_of_instant
-    set_tz('UTC')
+    from tz import SHAPE_ZONES, transitions
+    tzname = rnd.choice(['UTC', 'UTC'] + SHAPE_ZONES)
+    set_tz(tzname)
     lat = rnd.choice([rnd.uniform(-58, 58), rnd.uniform(-58, 58), rnd.uniform(60, 75), rnd.uniform(-75, -60), 0.0, 41.88, 23.8, 69.65])
     lon = rnd.choice([rnd.uniform(-180, 180), rnd.uniform(-120, 120), -87.63, 90.4, 178.0, -179.0, 13.4, 0.0])
     kind = rnd.choice([0, 1, 1, 2, 3, 3, 4, 10, 11])
@@ -55,6 +57,10 @@ def sun_case(args):
     p = trig._producer
     year = rnd.randint(2020, 2030)
     start = ns_of_dt(dtm.datetime(year, rnd.randint(1, 12), rnd.randint(1, 28), rnd.randint(0, 23), rnd.randint(0, 59), tzinfo=UTC))
+    tr = [x for x in transitions(tzname, 1_577_836_800, 1_924_992_000) if abs(x[2] - x[1]) <= 7200]
+    if tr and rnd.random() < 0.7:
+        # start a few days before a clock change of the system zone
+        start = (rnd.choice(tr)[0] - rnd.randint(2, 6) * 86400 + rnd.randint(0, 86399)) * NS_S
     if fixed:
         start = fixed['start']
     steps = 14 if tier == 'quick' else 40
@@ -91,8 +97,26 @@ def sun_case(args):
         el = [sun.elevation(ps.OBSERVER, t + dtm.timedelta(seconds=s), with_refraction=False) for s in (-300, 0, 300)]
         el_r = sun.elevation(ps.OBSERVER, t, with_refraction=True)
         astro.append((el[0], el[1], el[2], el_r))
+    # the configured location changes (same coordinates, other elevation of the observer): answers must be the ones
+    # a fresh computation gives, not those cached for the old location
+    relocate = []
+    ps.set_location(lat, lon, 2500.0)
+    for q in queries[:3]:
+        try:
+            a = f'ok {ns_of_instant(p.get_next(instant_of_ns(q)))}'
+        except Exception as e:  # noqa: BLE001
+            a = f'err {type(e).__name__}'
+        saved = dict(ps.SUN_CACHE)
+        ps.SUN_CACHE.clear()
+        try:
+            b = f'ok {ns_of_instant(p.get_next(instant_of_ns(q)))}'
+        except Exception as e:  # noqa: BLE001
+            b = f'err {type(e).__name__}'
+        ps.SUN_CACHE.clear()
+        ps.SUN_CACHE.update(saved)
+        relocate.append((q, a, b))
     param = SUN_PARAM.get(kind)
-    return {'seed': seed, 'lat': lat, 'lon': lon, 'kind': kind, 'param': param, 'queries': queries, 'impl': impl,
+    return {'tz': tzname, 'relocate': relocate,'seed': seed, 'lat': lat, 'lon': lon, 'kind': kind, 'param': param, 'queries': queries, 'impl': impl,
             'eph': eph, 'astro': astro}
 
 
@@ -135,8 +159,20 @@ class SunProp:
             k = 'res_' + (r.split()[1] if r.startswith('err') else 'ok')
             st[k] = st.get(k, 0) + 1
         where = f'[lat {c["lat"]:.3f} lon {c["lon"]:.3f} kind {SUN_KINDS.get(kind, c["param"])}]'
-        rep = {'component': 'sun', **{k: c[k] for k in ('seed', 'lat', 'lon', 'kind', 'param', 'queries')}, 'start': c['queries'][0]}
+        rep = {'component': 'sun', **{k: c[k] for k in ('seed', 'lat', 'lon', 'kind', 'param', 'queries')}, 'start': c['queries'][0], 'tz': c.get('tz')}
         oks = [int(r.split()[1]) for r in c['impl'] if r.startswith('ok')]
+        # ---- the model's answers first: a failure only counts as the KNOWN finding F9 when the model (which encodes the
+        # per-UTC-date lookup, theorem sun_midnight_fires_twice) predicts exactly the same answers
+        lines = [zone_line(c.get('tz', 'UTC')), 'loc 1', 'ephclear']
+        eph = c['eph']
+        for i in range(0, len(eph), 60):
+            lines.append(f'eph {kind} ' + ' '.join(f'{d} {"-" if v is None else v}' for d, v in eph[i:i + 60]))
+        lines.append(f'prod 1 (sun {kind} -)')
+        lines += [f'next 1 {q}' for q in c['queries']]
+        blocks = run_model(lines)
+        model = [b[0] if b else '' for b in blocks[-len(c['queries']):]]
+        agrees = model == c['impl']
+        f9 = (lambda times: self.f9(c, times)) if agrees else (lambda times: False)
         # ---- oracle 1: the sun really is where the trigger says (validation against astral)
         for t, (e0, e1, e2, er) in zip(oks, c['astro']):
             msg = None
@@ -155,7 +191,7 @@ class SunProp:
                 elif (e2 > e0) != (c['param'][2] == 'rising'):
                     msg = f'at the returned instant {t} the sun moves in the wrong direction ({e0:.3f} -> {e2:.3f})'
             if msg:
-                run.findings.append(Finding('oracle', f'{where} {msg}', rep, 'F9' if self.f9(c, [t]) else None))
+                run.findings.append(Finding('oracle', f'{where} {msg}', rep, 'F9' if f9([t]) else None))
                 break
         # ---- oracle 2: one occurrence per solar day
         if abs(c['lat']) < 60:
@@ -163,24 +199,21 @@ class SunProp:
                 gap = (b - a) / NS_HOUR
                 if not 23.5 <= gap <= 24.5:
                     run.findings.append(Finding('oracle', f'{where} successive occurrences {a} and {b} are {gap:.2f} h apart',
-                                                rep, 'F9' if self.f9(c, [a, b]) else None))
+                                                rep, 'F9' if f9([a, b]) else None))
                     break
             for q, r in zip(c['queries'], c['impl']):
                 if r.startswith('err'):
                     run.findings.append(Finding('oracle', f'{where} get_next({q}) ended with {r} although the event occurs every day',
-                                                rep, 'F9' if self.f9(c, [q]) else None))
+                                                rep, 'F9' if f9([q]) else None))
+        for q, a, b in c.get('relocate', []):
+            if a != b:
+                run.findings.append(Finding('oracle', f'{where} after set_location(same coordinates, elevation 2500 m) get_next({q}) '
+                                                      f'returns {a} but a fresh computation for the configured location gives {b}', rep))
+                break
         for q, r in zip(c['queries'], c['impl']):
             if r.startswith('ok') and int(r.split()[1]) <= q:
                 run.findings.append(Finding('oracle', f'{where} get_next({q}) returned {r}: not later', rep))
         # ---- correspondence
-        lines = ['zone 0', 'loc 1', 'ephclear']
-        eph = c['eph']
-        for i in range(0, len(eph), 60):
-            lines.append(f'eph {kind} ' + ' '.join(f'{d} {"-" if v is None else v}' for d, v in eph[i:i + 60]))
-        lines.append(f'prod 1 (sun {kind} -)')
-        lines += [f'next 1 {q}' for q in c['queries']]
-        blocks = run_model(lines)
-        model = [b[0] if b else '' for b in blocks[-len(c['queries']):]]
         run.traces_validated += 1
         for q, a, b in zip(c['queries'], c['impl'], model):
             if a != b and not (a.startswith('err') and b.startswith('err') and {a, b} <= {'err ValueError', 'err InfiniteLoopDetectedError'} and False):
